@@ -163,6 +163,18 @@ func setPath(m map[string]interface{}, path string, v interface{}) {
 	m[parts[len(parts)-1]] = v
 }
 
+func delPath(m map[string]interface{}, path string) {
+	parts := strings.Split(path, ".")
+	for _, p := range parts[:len(parts)-1] {
+		sub, ok := m[p].(map[string]interface{})
+		if !ok {
+			return
+		}
+		m = sub
+	}
+	delete(m, parts[len(parts)-1])
+}
+
 func getPath(m map[string]interface{}, path string) (interface{}, bool) {
 	parts := strings.Split(path, ".")
 	for _, p := range parts[:len(parts)-1] {
@@ -483,7 +495,8 @@ func TestLoadThenEnv(t *testing.T) {
 		if len(cands) > 0 && rapid.Bool().Draw(t, "override") {
 			f := cands[rapid.IntRange(0, len(cands)-1).Draw(t, "envfield")]
 			v := drawValue(t, f.kind)
-			if v.wellformed && v.env != "" && !v.zero {
+			// a zero number or duration means "use the default"; false is a value
+			if v.wellformed && v.env != "" && (!v.zero || f.kind == kBool) {
 				over, overV = &f, v
 				name := strings.ToUpper(s.envKey) + "_" + f.env
 				os.Setenv(name, v.env)
@@ -515,6 +528,12 @@ func TestLoadThenEnv(t *testing.T) {
 					t.Fatalf("%s: the environment variable for %s = %q was accepted on top of a loaded configuration but the saved form shows %s\nsettings: %v", s.name, over.path, overV.env, canonJSON(shown), desc)
 				}
 				setPath(bm, over.path, shown)
+			} else if overV.zero {
+				// false through the variable, and the section omits a false
+				// setting when it saves: then it must be gone, not still true
+				if was, had := getPath(bm, over.path); had && was == true {
+					delPath(bm, over.path)
+				}
 			}
 		}
 		if cb, ca := canonJSON(bm), canonJSON(am); cb != ca {
@@ -760,4 +779,265 @@ func selfSigned(t *testing.T) ([]byte, []byte) {
 		t.Fatal(err)
 	}
 	return pem.EncodeToMemory(&pem.Block{Type: "CERTIFICATE", Bytes: der}), pem.EncodeToMemory(&pem.Block{Type: "EC PRIVATE KEY", Bytes: kb})
+}
+
+// Environment variables through the manager: what the daemon does at start
+// (load the file, then apply the environment to every section).
+func TestManagerEnv(t *testing.T) {
+	leg := ev.L("manager-env", "the default configuration of all sections (raft or crdt, badger or leveldb) loaded through config.Manager, then Manager.ApplyEnvVars with one scalar setting of one component section supplied through its variable, well-formed or malformed (non-numeric integer, unparsable duration, ...): a value the section's own ApplyEnvVars refuses must make the call fail, and whatever is accepted must pass Manager.Validate and show in Manager.ToJSON; non-trivial = a refused malformed value or an applied non-zero value; distinct by section + setting")
+	rapid.Check(t, func(t *rapid.T) {
+		cons := rapid.SampledFrom([]string{"raft", "crdt"}).Draw(t, "consensus")
+		store := rapid.SampledFrom([]string{"badger", "leveldb"}).Draw(t, "datastore")
+		ch := cmdutils.NewConfigHelper("/nonexistent/verif/service.json", "/nonexistent/verif/identity.json", cons, store)
+		if err := ch.Manager().Default(); err != nil {
+			t.Fatal(err)
+		}
+		full, err := ch.Manager().ToJSON()
+		if err != nil {
+			t.Fatal(err)
+		}
+		var fm map[string]map[string]interface{}
+		json.Unmarshal(full, &fm)
+		// sections present in this manager, with scalar env settings
+		type cand struct {
+			s section
+			f field
+		}
+		var cands []cand
+		for _, s := range sections {
+			present := false
+			for _, grp := range fm {
+				if _, ok := grp[s.name]; ok {
+					present = true
+				}
+			}
+			if s.name == "cluster" {
+				present = true
+			}
+			if !present {
+				continue
+			}
+			for _, f := range s.fields {
+				if f.env != "" && (f.kind == kInt || f.kind == kUint || f.kind == kDur || f.kind == kBool || f.kind == kFloat) {
+					cands = append(cands, cand{s, f})
+				}
+			}
+		}
+		if len(cands) == 0 {
+			t.Skip("no candidates")
+		}
+		c := cands[rapid.IntRange(0, len(cands)-1).Draw(t, "setting")]
+		malformed := rapid.IntRange(0, 2).Draw(t, "malformed") == 0
+		val := ""
+		var v value
+		if malformed {
+			val = map[int]string{kInt: "twenty", kUint: "twenty", kDur: "soon", kBool: "perhaps", kFloat: "much"}[c.f.kind]
+		} else {
+			v = drawValue(t, c.f.kind)
+			if !v.wellformed || v.env == "" {
+				t.Skip("no textual form")
+			}
+			val = v.env
+		}
+		name := strings.ToUpper(c.s.envKey) + "_" + c.f.env
+		os.Setenv(name, val)
+		defer os.Unsetenv(name)
+		ch2 := cmdutils.NewConfigHelper("/nonexistent/verif/service.json", "/nonexistent/verif/identity.json", cons, store)
+		if err := ch2.Manager().LoadJSON(full); err != nil {
+			t.Fatalf("default configuration does not load: %v", err)
+		}
+		var aerr error
+		noPanic(t, "Manager.ApplyEnvVars", func() { aerr = ch2.Manager().ApplyEnvVars() })
+		desc := fmt.Sprintf("%s/%s %s=%s", cons, store, name, val)
+		// reference: the section on its own, loaded from the same JSON
+		var secJSON []byte
+		for _, grp := range fm {
+			if sj, ok := grp[c.s.name]; ok {
+				secJSON, _ = json.Marshal(sj)
+			}
+		}
+		if c.s.name == "cluster" {
+			secJSON, _ = json.Marshal(fm["cluster"])
+		}
+		alone := c.s.mk()
+		if err := alone.LoadJSON(secJSON); err != nil {
+			t.Fatalf("section %s of the default configuration does not load on its own: %v", c.s.name, err)
+		}
+		var serr error
+		noPanic(t, "ApplyEnvVars", func() { serr = alone.ApplyEnvVars() })
+		if serr != nil && aerr == nil {
+			t.Fatalf("%s: the %s section refuses this value (%v), yet Manager.ApplyEnvVars reported no error", desc, c.s.name, serr)
+		}
+		if malformed && aerr != nil {
+			leg.Case(desc, true, "malformed-refused")
+			return
+		}
+		if aerr != nil {
+			leg.Case(desc, false, "rejected")
+			return
+		}
+		if err := ch2.Manager().Validate(); err != nil {
+			t.Fatalf("%s was accepted by Manager.ApplyEnvVars but Manager.Validate rejects the result: %v", desc, err)
+		}
+		out, err := ch2.Manager().ToJSON()
+		if err != nil {
+			t.Fatalf("ToJSON: %v", err)
+		}
+		applied := false
+		if !malformed && !v.zero {
+			var om map[string]map[string]interface{}
+			json.Unmarshal(out, &om)
+			if c.s.name == "cluster" {
+				om = map[string]map[string]interface{}{"": {"cluster": map[string]interface{}(om["cluster"])}}
+			}
+			for _, grp := range om {
+				sec, ok := grp[c.s.name].(map[string]interface{})
+				if !ok {
+					continue
+				}
+				if shown, ok := getPath(sec, c.f.path); ok {
+					if !sameValue(c.f.kind, v.v, shown) {
+						t.Fatalf("%s was accepted but the saved configuration shows %s", desc, canonJSON(shown))
+					}
+					applied = true
+				}
+			}
+		}
+		cl := "section:" + c.s.name
+		if malformed {
+			cl = "malformed-ignored"
+		}
+		leg.Case(desc, applied, cl)
+	})
+}
+
+// A configuration file may hold sections of components that the process
+// saving it does not run (ipfs-cluster-follow registers crdt only; a raft
+// peer keeps the crdt section `init` wrote for a later switch): saving must
+// keep them.
+func TestManagerForeignSections(t *testing.T) {
+	leg := ev.L("manager-foreign-sections", "a configuration file holding the sections of every component, both consensus components and both datastores included (as two `init` runs leave it), 1-3 settings of the sections that the loading process does NOT register set to generated well-formed values; loaded by a Manager registering what a raft or a crdt peer registers (one consensus, for crdt one datastore), saved with ToJSON, then loaded by a Manager registering everything: every section present in the file is present in the saved file, the unregistered ones byte-for-byte as JSON values, and the second Manager shows the settings; non-trivial = a non-default value that the second manager accepts; distinct by settings")
+	rapid.Check(t, func(t *rapid.T) {
+		cons := rapid.SampledFrom([]string{"raft", "crdt"}).Draw(t, "consensus")
+		store := rapid.SampledFrom([]string{"badger", "leveldb"}).Draw(t, "datastore")
+		mk := func(c, s string) *cmdutils.ConfigHelper {
+			return cmdutils.NewConfigHelper("/nonexistent/verif/service.json", "/nonexistent/verif/identity.json", c, s)
+		}
+		// the file: every section (a helper with no consensus and datastore
+		// named registers them all)
+		all := mk("", "")
+		if err := all.Manager().Default(); err != nil {
+			t.Fatal(err)
+		}
+		fullJSON, err := all.Manager().ToJSON()
+		if err != nil {
+			t.Fatal(err)
+		}
+		var doc map[string]interface{}
+		json.Unmarshal(fullJSON, &doc)
+		// sections the loading process does not register
+		var foreign []string
+		for _, n := range []string{"raft", "crdt"} {
+			if n != cons {
+				foreign = append(foreign, n)
+			}
+		}
+		for _, n := range []string{"badger", "leveldb"} {
+			if cons == "raft" || n != store {
+				foreign = append(foreign, n)
+			}
+		}
+		where := map[string]string{"raft": "consensus.raft", "crdt": "consensus.crdt", "badger": "datastore.badger", "leveldb": "datastore.leveldb"}
+		type setting struct {
+			path string
+			f    field
+			v    value
+		}
+		var set []setting
+		var desc []string
+		for i := rapid.IntRange(1, 3).Draw(t, "n"); i > 0; i-- {
+			name := foreign[rapid.IntRange(0, len(foreign)-1).Draw(t, "section")]
+			var sec section
+			for _, s := range sections {
+				if s.name == name {
+					sec = s
+				}
+			}
+			f := sec.fields[rapid.IntRange(0, len(sec.fields)-1).Draw(t, "field")]
+			v := drawValue(t, f.kind)
+			if !v.wellformed {
+				continue
+			}
+			p := where[name] + "." + f.path
+			dup := false
+			for _, st := range set {
+				if st.path == p {
+					dup = true
+				}
+			}
+			if dup {
+				continue
+			}
+			setPath(doc, p, v.v)
+			set = append(set, setting{p, f, v})
+			desc = append(desc, p+"="+canonJSON(v.v))
+		}
+		file, _ := json.Marshal(doc)
+		what := fmt.Sprintf("registered %s+%s, file also holds %v: %s", cons, store, foreign, strings.Join(desc, " "))
+		// the settings must be acceptable to the process that does run those components
+		probe := mk("", "")
+		if err := probe.Manager().LoadJSON(file); err != nil {
+			leg.Case(what, false, "rejected-by-owner")
+			return
+		}
+		ch := mk(cons, store)
+		if err := ch.Manager().LoadJSON(file); err != nil {
+			t.Fatalf("a Manager that does not register %v refuses a file which is valid for the one that does: %v\n%s", foreign, err, what)
+		}
+		var saved []byte
+		var serr error
+		noPanic(t, "Manager.ToJSON", func() { saved, serr = ch.Manager().ToJSON() })
+		if serr != nil {
+			t.Fatalf("ToJSON after a successful load: %v\n%s", serr, what)
+		}
+		var sdoc map[string]interface{}
+		if err := json.Unmarshal(saved, &sdoc); err != nil {
+			t.Fatalf("saved configuration is not JSON: %v", err)
+		}
+		for _, name := range foreign {
+			want, _ := getPath(doc, where[name])
+			got, ok := getPath(sdoc, where[name])
+			if !ok {
+				t.Fatalf("the %s section of the file is gone after load + save by a process that does not run that component\n%s", where[name], what)
+			}
+			if canonJSON(want) != canonJSON(got) {
+				t.Fatalf("the %s section changed in a load + save by a process that does not run that component:\n file: %s\nsaved: %s\n%s", where[name], canonJSON(want), canonJSON(got), what)
+			}
+		}
+		ch2 := mk("", "")
+		if err := ch2.Manager().LoadJSON(saved); err != nil {
+			t.Fatalf("the saved file does not load where the foreign sections are registered: %v\n%s", err, what)
+		}
+		out, err := ch2.Manager().ToJSON()
+		if err != nil {
+			t.Fatalf("ToJSON: %v", err)
+		}
+		var odoc map[string]interface{}
+		json.Unmarshal(out, &odoc)
+		nontrivial := false
+		for _, st := range set {
+			if st.v.zero {
+				continue
+			}
+			shown, ok := getPath(odoc, st.path)
+			if !ok {
+				continue // a field the section omits when it has its default value
+			}
+			if !sameValue(st.f.kind, st.v.v, shown) {
+				t.Fatalf("%s was in the file, survived nothing: after load+save elsewhere and a load here the configuration shows %s\n%s", st.path, canonJSON(shown), what)
+			}
+			nontrivial = true
+		}
+		leg.Case(what, nontrivial, "loader:"+cons+"+"+store)
+	})
 }
